@@ -1,6 +1,6 @@
 From Coq Require Import Lia.
 From MV Require Import Model.RaceCfg.
-From MV Require Import Model.LockOrder.
+From MV Require Import Model.LockOrder Proofs.SplitCsSound.
 Open Scope N_scope.
 
 Lemma emem_in e l : emem e l = true <-> In e l.
@@ -81,4 +81,23 @@ Proof.
   assert (Hf : In (a, a) (filter (fun e => fst e =? snd e) (closure ncl (strict_edges edges)))).
   { apply filter_In. split; [exact Hin|]. cbn. apply N.eqb_refl. }
   destruct (filter (fun e => fst e =? snd e) (closure ncl (strict_edges edges))); [destruct Hf|discriminate].
+Qed.
+
+(* ---- the acquisition table ---- *)
+Inductive calls (prog : list rfunc) : N -> N -> Prop :=
+| calls_refl g : calls prog g g
+| calls_step g f h k : nth_error prog (N.to_nat g) = Some f -> In h (callees f) -> calls prog h k -> calls prog g k.
+
+Theorem acq_closed_sound prog A : acq_closed prog A = true ->
+  forall g k, calls prog g k -> forall fk c, nth_error prog (N.to_nat k) = Some fk -> cmem c (direct_acq fk) = true ->
+  cmem c (nth (N.to_nat g) A []) = true.
+Proof.
+  unfold acq_closed. intro H. apply andb_true_iff in H. destruct H as [_ H]. rewrite forallb_forall in H.
+  assert (Hf : forall i f, nth_error prog i = Some f ->
+            sub (direct_acq f) (nth i A []) /\ forall g, In g (callees f) -> sub (nth (N.to_nat g) A []) (nth i A [])).
+  { intros i f Hi. specialize (H (i, f) (in_combine_seq prog i f 0%nat Hi)). cbn in H. apply andb_true_iff in H. destruct H as [H1 H2].
+    split; [apply csub_sub, H1|]. intros g Hg. rewrite forallb_forall in H2. apply csub_sub, H2, Hg. }
+  intros g k Hc. induction Hc as [g|g f h k Hg Hh Hc IH]; intros fk c Hk Hcm.
+  - destruct (Hf _ _ Hk) as [H1 _]. apply H1. exact Hcm.
+  - destruct (Hf _ _ Hg) as [_ H2]. apply (H2 h Hh). apply (IH fk c Hk Hcm).
 Qed.
